@@ -70,7 +70,8 @@ pub fn judge(root: &Path, c: &Case) -> Result<(bool, bool), (String, String)> {
     let (dir_rel, spec): (String, Option<StackSpec>) = match c.route {
         0 | 1 | 2 => ("cache".into(), None),
         3 | 5 => {
-            let d = DirSpec::Sharded { dir: "cache".into(), shards: 2, cap: 2 * cap.max(1) };
+            // shard counts below 2 are documented to behave as 2 (capacity split over two shards)
+            let d = DirSpec::Sharded { dir: "cache".into(), shards: [2usize, 0, 1][c.files.len() % 3], cap: 2 * cap.max(1) };
             let dirs = d.candidate_dirs(Path::new(""), &key);
             (dirs[0].to_string_lossy().into_owned(), Some(StackSpec { writer: Some(d), readers: vec![], checker: Checker::None, auto_sync: true }))
         }
